@@ -325,11 +325,22 @@ pub fn c17l(ctx: &Ctx, begin: &mut dyn FnMut(J)) -> Outcome {
         }
         let a = *r.pick(&pts);
         let b = *r.pick(&pts);
-        let (s, mut e) = (a.min(b), a.max(b));
+        let (mut s, mut e) = (a.min(b), a.max(b));
         if s == e {
             e = (s + 1 + r.below(20) as u32).min(c.size);
             if e <= s {
                 continue;
+            }
+        }
+        // one region in twelve runs past the end of the chromosome (or lies wholly beyond it): its size is
+        // still end - start, and nothing is stored out there
+        if r.chance(1, 12) && c.size < u32::MAX - 1000 {
+            if r.chance(1, 3) {
+                s = c.size + r.below(50) as u32;
+            }
+            e = c.size + 1 + r.below(500) as u32;
+            if e <= s {
+                e = s + 1;
             }
         }
         let ncols = r.below(4) as usize;
@@ -377,6 +388,9 @@ pub fn c17l(ctx: &Ctx, begin: &mut dyn FnMut(J)) -> Outcome {
                 "partly_covered"
             };
             out.tag(kind);
+            if e.end > c.size {
+                out.tag(if e.start >= c.size { "region_beyond_chrom_end" } else { "region_straddles_chrom_end" });
+            }
             let d = || {
                 J::obj()
                     .set("chrom", J::s(c.name.clone()))
